@@ -3,6 +3,7 @@ package props
 import (
 	"bytes"
 	"fmt"
+	"io"
 	"os"
 	"path/filepath"
 	"sort"
@@ -144,6 +145,9 @@ func c09Extras(r *fw.Rand, i int) []gen.NodeSpec {
 		ex = append(ex, gen.NodeSpec{Path: "..data/x.tf", Kind: "file", Mode: 0644, Content: "dd", Mtime: 1400000030})
 		ex = append(ex, gen.NodeSpec{Path: "mod/...", Kind: "file", Mode: 0644, Content: "ddd", Mtime: 1400000031})
 		ex = append(ex, gen.NodeSpec{Path: "notes..txt", Kind: "file", Mode: 0644, Content: "n", Mtime: 1400000032})
+		// a back-slash is an ordinary character of a name
+		ex = append(ex, gen.NodeSpec{Path: "mod/notes\\draft.md", Kind: "file", Mode: 0644, Content: "bs", Mtime: 1400000033})
+		ex = append(ex, gen.NodeSpec{Path: "win\\style/path.txt", Kind: "file", Mode: 0644, Content: "bs2", Mtime: 1400000034})
 	}
 	if r.Chance(1, 2) {
 		// link text that is not in its shortest form must survive as written
@@ -345,7 +349,16 @@ func c09RunWorld(env *fw.Env, r *fw.Rand, w gen.World) fw.Result {
 	if err := freshDir(dir2); err != nil {
 		return fw.Result{Verdict: fw.Inconclusive, Msg: err.Error()}
 	}
-	b2, err := sourcebundle.ExtractArchive(bytes.NewReader(buf.Bytes()), dir2)
+	// the archive arrives the way a slow connection delivers it in a third
+	// of the worlds: one byte per Read, or with a Read that returns nothing first
+	var archive io.Reader = bytes.NewReader(buf.Bytes())
+	switch fw.HashString("reader"+worldKey(&w)) % 3 {
+	case 1:
+		archive = &dribbleReader{r: archive, step: 1}
+	case 2:
+		archive = &dribbleReader{r: archive, step: 3, emptyFirst: true}
+	}
+	b2, err := sourcebundle.ExtractArchive(archive, dir2)
 	if err != nil {
 		res.Verdict, res.Finding, res.Msg = fw.Violated, "extract-failed", "ExtractArchive of the bundle's own archive failed: "+err.Error()
 		return res
@@ -408,4 +421,26 @@ func init() {
 			Run: c09Twins,
 		}},
 	})
+}
+
+// dribbleReader hands out at most step bytes per Read (and, if emptyFirst, a
+// first Read of no bytes without error), as the io.Reader contract allows.
+type dribbleReader struct {
+	r          io.Reader
+	step       int
+	emptyFirst bool
+	started    bool
+}
+
+func (d *dribbleReader) Read(p []byte) (int, error) {
+	if !d.started {
+		d.started = true
+		if d.emptyFirst {
+			return 0, nil
+		}
+	}
+	if len(p) > d.step {
+		p = p[:d.step]
+	}
+	return d.r.Read(p)
 }
